@@ -15,10 +15,12 @@
 (* id.  Injected bytes are 128 + serial.                                     *)
 (*                                                                          *)
 (* Design mutants: NoSort, ActiveBeforeErr, LaterConsoleWins, LaterTTYWins,  *)
-(* NoDrain, NoReport, DrainTwice, Relink.                                    *)
+(* NoDrain, NoReport, DrainTwice, Relink, LinkBeforeFont (terminal attached   *)
+(* before the console's font/logo are configured), StalePrefix (log prefix    *)
+(* of a failed driver sticks to the next driver's line), FailSaysOk.          *)
 (***************************************************************************)
 EXTENDS Integers, Sequences, FiniteSets, TLC, Json, CSV, IOUtils, TraceLib
-CONSTANTS MaxDrv, MaxDrvRev, Orders, SayLens,
+CONSTANTS MaxDrv, MaxDrvRev, MaxFont, Orders, SayLens,
           MaxPrints, MaxPrints3,   \* log chunks per behaviour with <= 2 / >= 3 registered drivers
           PrintLens, Families, RingCap, Bug, Emit
 
@@ -27,19 +29,23 @@ B == INSTANCE Bringup
 VARIABLES reg,            \* registered drivers, registration order
           list, idx,      \* sorted list and position of the probe loop
           phase,          \* "boot" | "probing" | "ended"
-          sink, ring, shown, held, actTTY, actCons, active, attached, tstate,
+          sink, ring, shown, held, actTTY, actCons, active, attached, tstate, cgeom, tgeom,
           serial, nprints, slots,
           s, mismatch
-vars == <<reg, list, idx, phase, sink, ring, shown, held, actTTY, actCons, active, attached, tstate, serial, nprints, slots, s, mismatch>>
+vars == <<reg, list, idx, phase, sink, ring, shown, held, actTTY, actCons, active, attached, tstate, cgeom, tgeom, serial, nprints, slots, s, mismatch>>
 
 Kinds == {"tty", "cons", "other"}
-Rec(o, k, p, i, y) == [order |-> o, kind |-> k, probeOk |-> p, initOk |-> i, say |-> y]
+Rec(o, k, p, i, y) == [order |-> o, kind |-> k, probeOk |-> p, initOk |-> i, say |-> y, font |-> FALSE]
+\* a console with font / logo support has no character geometry until the HAL has configured it
+FontCons(i) == [order |-> 0, kind |-> "cons", probeOk |-> TRUE, initOk |-> i, say |-> 0, font |-> TRUE]
 OrdSeq == <<-128, -127, 0, 127>>
 \* family "sort": any orders, every driver comes up
 FamSort(n) == [1..n -> {Rec(o, k, TRUE, TRUE, 0) : o \in Orders, k \in Kinds}]
 \* family "outcome": registration order = detection order, every kind / outcome / chattiness
 FamOutcome(n) == {q \in [1..n -> {Rec(0, "other", FALSE, TRUE, 0)} \cup {Rec(0, k, TRUE, i, y) : k \in Kinds, i \in BOOLEAN, y \in SayLens}] : TRUE}
 \* families "outcomeRev" / "pairsRev": the same driver sets registered in the opposite of their detection order
+\* family "font": terminals, consoles with and without font support and a failing driver, in detection and reverse order
+FamFont(n) == [1..n -> {Rec(0, "tty", TRUE, TRUE, 0), Rec(0, "cons", TRUE, TRUE, 0), FontCons(TRUE), FontCons(FALSE), Rec(0, "other", TRUE, FALSE, 1)}]
 \* family "pairs": consoles and terminals only, any of them failing
 FamPairs(n) == [1..n -> {Rec(0, k, TRUE, i, 0) : k \in {"tty", "cons"}, i \in BOOLEAN}]
 WithOrder(q) == [i \in 1..Len(q) |-> [q[i] EXCEPT !.order = OrdSeq[i]]]
@@ -48,6 +54,7 @@ Regs(d) == (IF "sort" \in Families THEN UNION {FamSort(n) : n \in 0..MaxDrv} ELS
            \cup (IF "outcome" \in Families THEN UNION {{WithOrder(q) : q \in FamOutcome(n)} : n \in 0..MaxDrv} ELSE {})
            \cup (IF "outcomeRev" \in Families THEN UNION {{WithOrderRev(q) : q \in FamOutcome(n)} : n \in 2..MaxDrvRev} ELSE {})
            \cup (IF "pairsRev" \in Families THEN UNION {{WithOrderRev(q) : q \in FamPairs(n)} : n \in 3..3} ELSE {})
+           \cup (IF "font" \in Families THEN UNION {{WithOrder(q) : q \in FamFont(n)} \cup {WithOrderRev(q) : q \in FamFont(n)} : n \in 2..MaxFont} ELSE {})
            \cup (IF "pairs" \in Families THEN UNION {{WithOrder(q) : q \in FamPairs(n)} : n \in 3..(MaxDrv + 1)} ELSE {})
 
 Name(id) == <<10 + id>>
@@ -58,6 +65,7 @@ Init == /\ reg \in Regs(0)
         /\ list = <<>> /\ idx = 0 /\ phase = "boot"
         /\ sink = 0 /\ ring = <<>> /\ shown = [i \in 1..Len(reg) |-> <<>>] /\ held = [i \in 1..Len(reg) |-> <<>>]
         /\ actTTY = 0 /\ actCons = 0 /\ active = <<>> /\ attached = [i \in 1..Len(reg) |-> 0] /\ tstate = [i \in 1..Len(reg) |-> 0]
+        /\ cgeom = [i \in 1..Len(reg) |-> IF reg[i].font THEN 0 ELSE 1] /\ tgeom = [i \in 1..Len(reg) |-> 0]
         /\ serial = 0 /\ nprints = 0 /\ slots = <<>>
         /\ s = B!Mon(B!S0, [k |-> "start", drv |-> EvDrv]).s /\ mismatch = <<>>
 
@@ -81,7 +89,7 @@ EnvPrint(k) ==
         /\ Judge(<<[k |-> "print", from |-> serial, len |-> k]>>)
   /\ serial' = serial + k /\ nprints' = nprints + 1
   /\ slots' = Append(slots, [at |-> IF phase = "boot" THEN 0 ELSE idx + 1, len |-> k])
-  /\ UNCHANGED <<reg, list, idx, phase, sink, actTTY, actCons, active, attached, tstate>>
+  /\ UNCHANGED <<reg, list, idx, phase, sink, actTTY, actCons, active, attached, tstate, cgeom, tgeom>>
 
 \* DetectHardware: sort.Sort(drivers) - any arrangement that is sorted by detection order
 IsPerm(p) == \A i \in 1..Len(reg) : \E j \in 1..Len(reg) : p[j] = i
@@ -90,13 +98,13 @@ Sort ==
   /\ phase = "boot"
   /\ list' \in (IF Bug = "NoSort" THEN {[i \in 1..Len(reg) |-> i]} ELSE SortedPerms)
   /\ phase' = "probing" /\ idx' = 0
-  /\ UNCHANGED <<reg, sink, ring, shown, held, actTTY, actCons, active, attached, tstate, serial, nprints, slots, s, mismatch>>
+  /\ UNCHANGED <<reg, sink, ring, shown, held, actTTY, actCons, active, attached, tstate, cgeom, tgeom, serial, nprints, slots, s, mismatch>>
 
 \* linkTTYToConsole on x = [sink, ring, shown, attached, tstate] with the pair (t, c): new x and events
 Link(x, t, c) ==
   LET drained == IF Bug = "NoDrain" THEN <<>> ELSE IF Bug = "DrainTwice" THEN x.ring \o x.ring ELSE x.ring
   IN \* tty.VT.AttachTo allocates a blank buffer: whatever the terminal held is gone
-     [x EXCEPT !.attached[t] = c, !.sink = t, !.shown[t] = @ \o drained, !.held[t] = drained, !.ring = <<>>, !.tstate[t] = 1]
+     [x EXCEPT !.tgeom[t] = x.cgeom[c], !.attached[t] = c, !.sink = t, !.shown[t] = @ \o drained, !.held[t] = drained, !.ring = <<>>, !.tstate[t] = 1]
 LinkEvs(t, c) == <<[k |-> "attach", tty |-> t, cons |-> c], [k |-> "state", tty |-> t, st |-> 1]>>
 
 \* one iteration of the probe loop
@@ -104,16 +112,17 @@ Step ==
   /\ phase = "probing" /\ idx < Len(list)
   /\ LET d == list[idx + 1]
          r == reg[d]
-         x0 == [sink |-> sink, ring |-> ring, shown |-> shown, held |-> held, attached |-> attached, tstate |-> tstate,
+         x0 == [sink |-> sink, ring |-> ring, shown |-> shown, held |-> held, cgeom |-> cgeom, tgeom |-> tgeom, attached |-> attached, tstate |-> tstate,
                 actTTY |-> actTTY, actCons |-> actCons, active |-> active]
          pe == [k |-> "probe", id |-> d]
      IN IF ~r.probeOk
         THEN /\ Judge(<<pe>>)
-             /\ UNCHANGED <<sink, ring, shown, held, actTTY, actCons, active, attached, tstate, serial>>
+             /\ UNCHANGED <<sink, ring, shown, held, actTTY, actCons, active, attached, tstate, cgeom, tgeom, serial>>
         ELSE LET say == Bytes(r.say, serial)
                  \* the PrefixWriter's sink is fetched before DriverInit
-                 body == say \o (IF r.initOk THEN <<2>> ELSE IF Bug = "NoReport" THEN <<>> ELSE <<3>> \o Msg(d))
-                 line == IF body = <<>> THEN <<>> ELSE Name(d) \o body       \* the prefix is written with the first byte of a line
+                 body == say \o (IF r.initOk \/ Bug = "FailSaysOk" THEN <<2>> ELSE IF Bug = "NoReport" THEN <<>> ELSE <<3>> \o Msg(d))
+                 stale == IF Bug = "StalePrefix" /\ idx > 0 /\ reg[list[idx]].probeOk /\ ~reg[list[idx]].initOk THEN Name(list[idx]) ELSE <<>>
+                 line == IF body = <<>> THEN <<>> ELSE stale \o Name(d) \o body \o <<10>>   \* prefix with the first byte of a line; reports end the line
                  x1 == LogW(x0, line)
                  ie == [k |-> "init", id |-> d, from |-> serial, len |-> r.say, ok |-> r.initOk]
                  x2 == IF ~r.initOk THEN (IF Bug = "ActiveBeforeErr" THEN [x1 EXCEPT !.active = Append(@, d)] ELSE x1)
@@ -123,8 +132,12 @@ Step ==
                    IF ~r.initOk THEN [x |-> x2, evs |-> <<>>]
                    ELSE IF r.kind = "cons"
                    THEN IF x2.actCons # 0 /\ Bug # "LaterConsoleWins" THEN [x |-> x2, evs |-> <<>>]
-                        ELSE LET x3 == [x2 EXCEPT !.actCons = d] IN
-                             IF x3.actTTY # 0 THEN [x |-> Link(x3, x3.actTTY, d), evs |-> LinkEvs(x3.actTTY, d)] ELSE [x |-> x3, evs |-> <<>>]
+                        ELSE LET x3 == [x2 EXCEPT !.actCons = d]
+                                 cfg(y) == [y EXCEPT !.cgeom[d] = IF r.font THEN 2 ELSE @]      \* SetLogo / SetFont give the console its geometry
+                             IN IF x3.actTTY # 0
+                                THEN [x |-> IF Bug = "LinkBeforeFont" THEN cfg(Link(x3, x3.actTTY, d)) ELSE Link(cfg(x3), x3.actTTY, d),
+                                      evs |-> LinkEvs(x3.actTTY, d)]
+                                ELSE [x |-> cfg(x3), evs |-> <<>>]
                    ELSE IF r.kind = "tty"
                    THEN IF x2.actTTY # 0 /\ Bug = "Relink"       \* the active pair is linked again for every further terminal
                         THEN (IF x2.actCons # 0 THEN [x |-> Link(x2, x2.actTTY, x2.actCons), evs |-> LinkEvs(x2.actTTY, x2.actCons)]
@@ -134,6 +147,7 @@ Step ==
                              IF x3.actCons # 0 THEN [x |-> Link(x3, d, x3.actCons), evs |-> LinkEvs(d, x3.actCons)] ELSE [x |-> x3, evs |-> <<>>]
                    ELSE [x |-> x2, evs |-> <<>>]
              IN /\ sink' = res.x.sink /\ ring' = res.x.ring /\ shown' = res.x.shown /\ held' = res.x.held /\ attached' = res.x.attached
+                /\ cgeom' = res.x.cgeom /\ tgeom' = res.x.tgeom
                 /\ tstate' = res.x.tstate /\ actTTY' = res.x.actTTY /\ actCons' = res.x.actCons /\ active' = res.x.active
                 /\ serial' = serial + r.say
                 /\ Judge(<<pe, ie>> \o res.evs)
@@ -145,10 +159,11 @@ End ==
   /\ phase = "probing" /\ idx = Len(list)
   /\ LET pairs(f) == [i \in 1..Len(reg) |-> [id |-> i, v |-> f[i]]]
          e == [k |-> "end", activeTTY |-> actTTY, activeCons |-> actCons, active |-> active, sink |-> sink,
-               shown |-> pairs(shown), held |-> pairs(held), ring |-> ring, state |-> pairs(tstate), attached |-> pairs(attached)]
+               shown |-> pairs(shown), held |-> pairs(held), ring |-> ring,
+               geom |-> [i \in 1..Len(reg) |-> [id |-> i, v |-> <<tgeom[i], tgeom[i]>>]], consGeom |-> [i \in 1..Len(reg) |-> [id |-> i, v |-> <<cgeom[i], cgeom[i]>>]], state |-> pairs(tstate), attached |-> pairs(attached)]
      IN Judge(<<e>>)
   /\ phase' = "ended"
-  /\ UNCHANGED <<reg, list, idx, sink, ring, shown, held, actTTY, actCons, active, attached, tstate, serial, nprints, slots>>
+  /\ UNCHANGED <<reg, list, idx, sink, ring, shown, held, actTTY, actCons, active, attached, tstate, cgeom, tgeom, serial, nprints, slots>>
 
 Next == /\ mismatch = <<>>
         /\ \/ \E k \in PrintLens : EnvPrint(k)
